@@ -417,6 +417,15 @@ class Check:
         vo = (COQ / vfile).with_suffix(".vo")
         if vo.exists():
             vo.unlink()
+        # everything the statement file imports must be rebuilt from the current sources first
+        deps = []
+        for m in re.finditer(r"From RC Require (?:Import|Export)\s+(.*?)\.\s*$", (COQ / vfile).read_text(), re.M | re.S):
+            for mod in m.group(1).split():
+                deps.append(mod.replace(".", "/") + ".vo")
+        if deps:
+            okd, outd = coq_make(deps, timeout=1500)
+            if not okd:
+                self.oblige("coq-build:" + ",".join(deps), False, outd)
         ok, out = coqc_capture(vfile, timeout=timeout)
         self.checker_cmds.append(f"cd /verif/coq && coqc -Q . RC {vfile}")
         info = parse_props_output(vfile, out)
